@@ -57,13 +57,19 @@ def build(c, ws):
         for kind in ("documentSymbol", "foldingRange", "documentLink", "semanticTokensFull", "formatting"):
             req(n, kind)
         seen = set()
+        kinds_seen = set()
         for o in sorted(f["occ"], key=lambda o: (o["line"], o["c0"])):
-            if o["k"] in seen:
+            if (o["k"], o["name"]) in seen:
                 continue
-            seen.add(o["k"])
+            seen.add((o["k"], o["name"]))
             col = o["c0"] + (1 if o["quoted"] else 0)
-            for kind in ("hover", "definition", "references", "rename"):
-                req(n, kind, o["line"] - 1, col)
+            # definition for every symbol of the file (its answer may be "the earliest use", which can tie across files);
+            # the heavier requests once per kind of symbol
+            req(n, "definition", o["line"] - 1, col)
+            if o["k"] not in kinds_seen:
+                kinds_seen.add(o["k"])
+                for kind in ("hover", "references", "rename"):
+                    req(n, kind, o["line"] - 1, col)
     req("probe.journal", "workspaceSymbol")
     return {"files": files, "workspace": ws, "ops": ops}
 
